@@ -48,6 +48,9 @@ pub struct Params {
     /// when > 0: the last package gets a log-uniformly distributed number of candidates up to this
     /// (hundreds to thousands: thresholds that ordinary universes never reach)
     pub big_pkg: usize,
+    /// reads past the end of the tape continue pseudo-randomly (seeded from the tape) instead of
+    /// with zeros: for stages whose cases need thousands of choices
+    pub tail_random: bool,
 }
 
 impl Default for Params {
@@ -81,6 +84,7 @@ impl Default for Params {
             p_root_union: 150,
             p_perm_rank: 600,
             big_pkg: 0,
+            tail_random: false,
         }
     }
 }
@@ -228,7 +232,24 @@ impl Params {
             p_forward: 800,
             vs_w: [6, 1, 2, 1, 0],
             max_soft: 0,
+            tail_random: true,
             ..Params::default()
+        }
+    }
+
+    /// A root with thousands of requirements (distinct version sets over about a hundred
+    /// packages): one propagation round visits thousands of clauses.
+    pub fn wide_root() -> Self {
+        Params {
+            min_root_reqs: 2100,
+            max_root_reqs: 4400,
+            min_pkgs: 60,
+            max_pkgs: 120,
+            max_cands: 4,
+            max_reqs: 1,
+            p_vs_reuse: 50,
+            p_root_union: 30,
+            ..Params::wide()
         }
     }
 
@@ -404,7 +425,7 @@ pub fn gen_universe(t: &mut Tape, p: &Params) -> Universe {
             text: format!("reason{i}"),
         });
     }
-    if p.big_pkg > 0 {
+    if p.big_pkg > 0 || p.tail_random {
         let seed = t.next();
         t.enable_tail(seed);
     }
@@ -615,7 +636,7 @@ pub fn gen_conflict_free(t: &mut Tape, p: &Params, with_hints: bool) -> (Univers
             text: format!("reason{i}"),
         });
     }
-    if p.big_pkg > 0 {
+    if p.big_pkg > 0 || p.tail_random {
         let seed = t.next();
         t.enable_tail(seed);
     }
@@ -774,7 +795,7 @@ pub fn gen_conflict_free(t: &mut Tape, p: &Params, with_hints: bool) -> (Univers
             }
         }
     }
-    let nr = t.range(1, p.max_root_reqs.max(1));
+    let nr = t.range(p.min_root_reqs.max(1), p.max_root_reqs.max(p.min_root_reqs).max(1));
     let mut reqs = vec![];
     for _ in 0..nr {
         reqs.push(good_req(&mut b, t, None, &target));
